@@ -146,6 +146,34 @@ def full_proof_check(s, c, blocks, res, heights=None, failures=None, stride=1):
             if why:
                 failures.append(('header-proof', dict(height=h, cp_height=cp, why=why)))
                 return failures
+    # block.headers(start, count, cp): the proof is for the LAST header returned
+    for start in (0, max(0, tip - 2), tip):
+        for count in (1, 2, 3, tip + 5):
+            for cp in (tip, tip - 1):
+                avail = max(0, min(count, tip + 1 - start))
+                last = start + avail - 1
+                r = c.call('blockchain.block.headers', [start, count, cp])
+                res.count('header_proofs_checked')
+                if not 0 <= last <= cp:
+                    if 'error' not in r and avail:
+                        failures.append(('headers-proof-outside-chain-answered',
+                                         dict(start=start, count=count, cp_height=cp)))
+                        return failures
+                    continue
+                x = r.get('result')
+                why = None
+                if not isinstance(x, dict) or x.get('count') != avail or \
+                        x.get('hex') != b''.join(b.header for b in blocks[start:start + avail]).hex():
+                    why = 'wrong headers or refused: ' + str(r.get('error'))[:80]
+                else:
+                    root = header_merkle_root(blocks, cp + 1)
+                    if bytes.fromhex(x.get('root', ''))[::-1] != root or \
+                            fold(blocks[last].hash, x.get('branch', ()), last) != root:
+                        why = 'proof does not verify for the last header returned'
+                if why:
+                    failures.append(('headers-proof', dict(start=start, count=count, cp_height=cp,
+                                                           why=why)))
+                    return failures
     for h, cp in ((tip, tip + 1), (tip + 1, tip + 1), (3, 2)):
         r = c.call('blockchain.block.header', [h, cp])
         res.count('out_of_range_requests')
@@ -308,6 +336,8 @@ def case_schedule(case, res):
                 continue
             if 'error' in r:
                 res.count('in_flight_refused')
+                if isinstance(r['error'], dict) and r['error'].get('code') == -32603:
+                    failures.append(('in-flight-request-ended-in-internal-error:' + req['tag'], {}))
                 continue
             ok = False
             for ch in s.x_chains:
@@ -360,14 +390,18 @@ def sliced_requests(variant, tip):
     return {0: [(0, tip)], 1: [(tip - 1, tip - 1)], 2: [(0, tip), (tip, tip), (0, tip - 1)],
             3: [(tip - 2, tip)],
             4: [('pos', tip, 0), ('tx', tip, 1), ('pos', tip - 1, 1)],
-            5: [('tx', tip, 0), (0, tip), ('pos', tip, 1)]}[variant]
+            5: [('tx', tip, 0), (0, tip), ('pos', tip, 1)],
+            # heights the block processor may already hold in memory but does not serve yet
+            6: [('beyond', tip + 1, 0), ('beyond', tip + 2, 1), ('beyond', tip + 1, 1)]}[variant]
 
 
 def send_sliced_requests(s, variant, base):
     c = s.x_clients['c1']
     tip0 = len(base) - 1
     for rq in sliced_requests(variant, tip0):
-        if rq[0] == 'pos':
+        if rq[0] == 'beyond':
+            rid = c.request('blockchain.transaction.id_from_pos', [rq[1], rq[2], bool(rq[2])])
+        elif rq[0] == 'pos':
             rid = c.request('blockchain.transaction.id_from_pos',
                             [rq[1], min(rq[2], len(base[rq[1]].txs) - 1), True])
         elif rq[0] == 'tx':
@@ -396,6 +430,20 @@ def judge_sliced(s, base, y, depth, res):
             failures.append(('request-never-answered', dict(request=[h, cp] + more)))
         elif 'error' in r:
             res.count('in_flight_refused')
+            if isinstance(r['error'], dict) and r['error'].get('code') == -32603:
+                failures.append(('in-flight-request-ended-in-internal-error',
+                                 dict(request=[h, cp] + more)))
+        elif h == 'beyond':
+            # answered: fine if the new chain really has that transaction (the flush may be done)
+            height, pos = cp, more[0]
+            good = height < len(y) and pos < len(y[height].txs)
+            if good and pos:
+                good = check_tx_proof(r, y[height], pos, 'id_from_pos') is None
+            elif good:
+                good = r.get('result') == y[height].txs[pos].txid[::-1].hex()
+            if not good:
+                failures.append(('request-beyond-the-served-chain-answered-wrongly',
+                                 dict(request=[h, cp] + more)))
         elif h in ('pos', 'tx'):
             height, pos = cp, min(more[0], len(base[cp].txs) - 1)
             kind = 'id_from_pos' if h == 'pos' else 'get_merkle'
@@ -480,15 +528,21 @@ def run_case(case, res):
         case_schedule(case, res)
 
 
+BOUND2 = ('header-proofs', 'warm-then-reorg')
+
+
 def cases_for(tier):
     q = tier == 'quick'
     cases = [dict(history=h, all_positions=not q) for h in HISTORIES]
     for scn in ('tx-proofs', 'header-proofs', 'warm-then-reorg', 'burst', 'tsc-in-flight'):
-        n = 5 if q else 16
+        # two deviations only on the shorter scenarios (a thorough run with bound 2 on all of
+        # them had not finished after 2.5 hours)
+        bound = 2 if (not q and scn in BOUND2) else 1
+        n = 5 if bound == 1 else 16
         for i in range(n):
-            cases.append(dict(scenario=scn, bound=1 if q else 2, shard=[i, n]))
+            cases.append(dict(scenario=scn, bound=bound, shard=[i, n]))
     for depth in (1, 2) if q else (1, 2, 3):
-        for variant in range(6):
+        for variant in range(7):
             cases.append(dict(sliced=True, depth=depth, variant=variant))
     # reads of the requests themselves torn by the mutation
     for depth in (1,) if q else (1, 2):
@@ -523,7 +577,7 @@ def run(tier, seed, started):
         'sliced_undo_executions': c.get('sliced_executions', 0),
         'torn_read_executions': c.get('torn_read_executions', 0),
         'slice_points_per_reorg': c.get('max:slice_points'),
-        'deviation_bound_completed': 1 if tier == 'quick' else 2,
+        'deviation_bound_completed': 1 if tier == 'quick' else '2 on ' + ', '.join(BOUND2) + '; 1 on the others',
         'deviation_kinds_used': sorted(kinds),
         'exhaustive': True,
     }
